@@ -11,6 +11,7 @@ import (
 	"path/filepath"
 	"sort"
 
+	"github.com/criyle/go-sandbox/cmd/runprog/config"
 	"github.com/criyle/go-sandbox/ptracer"
 	"github.com/criyle/go-sandbox/runner/ptrace/filehandler"
 )
@@ -68,9 +69,20 @@ type caseJ struct {
 	Relink     []string `json:"relink,omitempty"` // [link, target]: re-point this symbolic link before the query
 	// ops
 	Ops []op `json:"ops,omitempty"`
+	// getconf: a history of configurations built in one process, then every handler asked about every path
+	Confs   []confJ  `json:"confs,omitempty"`
+	Queries []string `json:"queries,omitempty"`
 	// counter
 	Counter map[string]int `json:"counter,omitempty"`
 	Hist    []string       `json:"hist,omitempty"`
+}
+
+type confJ struct {
+	PType    string   `json:"ptype"`
+	Work     string   `json:"work"`
+	Arg0     string   `json:"arg0"`
+	AddRead  []string `json:"add_read"`
+	AddWrite []string `json:"add_write"`
 }
 
 func act(a ptracer.TraceAction) string {
@@ -119,6 +131,21 @@ func main() {
 				rows[i] = m.String()
 			}
 			res["rows"] = rows
+		case "getconf":
+			var hs []*filehandler.Handler
+			for _, cf := range c.Confs {
+				_, _, _, h := config.GetConf(cf.PType, cf.Work, []string{cf.Arg0}, cf.AddRead, cf.AddWrite, false)
+				hs = append(hs, h)
+			}
+			ans := [][]string{}
+			for _, h := range hs {
+				row := []string{}
+				for _, q := range c.Queries {
+					row = append(row, act(h.CheckRead(q))+","+act(h.CheckWrite(q))+","+act(h.CheckStat(q)))
+				}
+				ans = append(ans, row)
+			}
+			res["answers"] = ans
 		case "smart":
 			fs := c.Set.build()
 			res["in"] = fs.IsInSetSmart(c.Path)
